@@ -101,5 +101,5 @@ def run(prog: Program, rep, tier="quick"):
     ip = prog.func(OS_PY, "DiskObjectStore._index_pack")
     src = norm(ip.node, 100000)
     rep.ob("R05.2", OS_PY, ip.qual, "external refs come from the indexer", "ext_refs()" in src, "", ip.node.lineno)
-    rep.floor("R05.1", 5)
+    rep.floor("R05.1", 3)
     rep.floor("R05.2", 5)
